@@ -55,6 +55,26 @@ CHECKS = {
          'Failing patches with 1-2 (3) files, 1-3 hunks per file and every non-empty subset of hunks failing, every failure reason of the menu, with threads 1/2/3: the set of *.rej and the hunks inside them (lines and start lines) must be exactly the failing hunks.',
          'Two failing entries for the same file in one patch are outside the reject oracle (duplicate-reject behaviour is not modelled).',
          '5/C13'),
+ 'C06': ('wsweep', 'model_checking',
+         'stateless model checking (CHESS-style preemption-bounded DFS) of the real multi-threaded driver under a cooperative scheduler at source hooks; differential oracle vs. --threads 1',
+         'For ~25 workloads and N in {2,3} (thorough {2,3,4}) every schedule of the worker threads with <=1 (3) preemptions at the hooked synchronisation and file-system points is executed on the real binary; exit class, tree, .pc and rejects must equal the single-threaded run, no file may be handled by two workers, and replays must be identical.',
+         'Sequentially consistent interleavings at the hooked points only; N=16 runs on default schedules; the schedule bound completed is reported.',
+         '5/C06'),
+ 'C09': ('wsweep', 'model_checking',
+         'explicit-state BFS over the invocation graph of the real binary (nodes = workspace snapshots, edges = push invocations), every node compared with the single-invocation reference',
+         'For every 3-patch (thorough 3-4) series of the alphabet the graph reachable by push / push m / push <name> / push -a with 1 and 2 threads is explored to fixpoint; each node must equal the state of `push g` from pristine, invocations with nothing to do must leave the snapshot (incl. inodes/mtimes) untouched.',
+         'Backups excluded as in the statement; series whose failure is an I/O error are C17\'s subject.',
+         '5/C09'),
+ 'C10': ('wsweep', 'model_checking',
+         'bounded-exhaustive enumeration of workspaces x threads x backup settings with --dry-run on the real binary under an LD_PRELOAD file-system monitor; differential vs. the real run',
+         'Every workspace of the C05 sweep is run with --dry-run: the full recursive snapshot incl. inodes and mtimes must be identical, the monitor must log no mutating libc call, and exit class and failing patch name must equal the real run.',
+         'The monitor sees libc calls only.',
+         '5/C10'),
+ 'C14': ('wsweep', 'model_checking',
+         'bounded-exhaustive enumeration of workspaces x all 192 presentation/loader option sets x threads on the real binary; differential vs. the -q default-loader run',
+         'Workspaces of the alphabet incl. zero-length source and patch files and multi-entry failing patches are pushed under every combination of --mmap, verbosity, --color, --stats, -A multiapply with 1 and 2 threads; tree, .pc, rejects and exit class must equal the reference run.',
+         'Quick tier uses 1-file-patch workspaces plus selected failing ones.',
+         '5/C14'),
  'C07': ('rqdist', 'model_checking',
          'explicit-state BFS over the real FilenameDistributor to fixpoint, invariant vs. union-find reference in every state',
          'Every reachable state of the real distributor over N<=5 (thorough 7) names is visited (fixpoint, so call sequences of every length); in each, build() must give all names of one reference component the same thread for 8 thread counts.',
